@@ -38,12 +38,12 @@ LEVEL_NOTE = (
 )
 RULE = (
     "case = (devices with generated data-key sets drawn from a 5-key pool so overlaps are common, one motor; guarded "
-    "step list). Sweep: every sequence of length <= 3 (quick, plus a rotating quarter of length 4) / 5 (thorough) over {create, read a, read b, read c, "
-    "save, drop, checkpoint, configure a} with a = {k1,k2}, b = {k2,k3}, c = {c}, followed by a fixed bundle "
-    "create/read a/read c/save that exposes corrupted state. Hypothesis: segments that are bundles (create, the stream's "
-    "template reads or random reads with 0-3 inserted extra operations, terminated by save/drop/nothing) or operations "
-    "outside a bundle. Non-trivial: >= 1 "
-    "accepted event with >= 2 objects AND >= 1 operation the model requires to be rejected. Distinct = canonical JSON."
+    "step list). Sweep: every sequence of length <= 3 (quick, plus a rotating quarter of length 4) / <= 5 (thorough) "
+    "over {create, read a, read b, read c, save, drop, checkpoint, configure a} with a = {k1,k2}, b = {k2,k3}, c = {c}, "
+    "followed by a fixed bundle create/read a/read c/save that exposes corrupted state. Hypothesis: segments that are "
+    "bundles (create, the stream's template reads or random reads with 0-3 inserted extra operations, terminated by "
+    "save/drop/nothing) or operations outside a bundle. Non-trivial: >= 1 accepted event with >= 2 objects AND >= 1 "
+    "operation the model requires to be rejected. Distinct = canonical JSON."
 )
 ASSUMPTIONS = [
     "device describe() keys equal the keys of its read() (fake devices guarantee it)",
@@ -510,7 +510,7 @@ def run(ctx):
         f"all sequences of <= {maxlen} operations over {{create, read a, read b, read c, save, drop, checkpoint, configure a}} "
         "(a,b share key k2) inside one run, each followed by a fixed create/read a/read c/save" + extra_note
     )
-    ctx.hyp(strategy, check_case, max_examples=ctx.pick(4000, 60000), tag="c15")
+    ctx.hyp(strategy, check_case, max_examples=ctx.pick(4000, 40000), tag="c15")
 
 
 def replay(case):
